@@ -10,6 +10,7 @@ package objects
 import (
 	"bytes"
 	"compress/gzip"
+	"fmt"
 
 	"github.com/pkg/errors"
 
@@ -291,6 +292,11 @@ func (t *MessageContainer) MarshalTL(e *tl.Encoder) error {
 
 func (t *MessageContainer) UnmarshalTL(d *tl.Decoder) error {
 	count := int(d.PopInt())
+	// every message in container has at least 16 bytes of header (msg_id, seqno, bytes)
+	const messageHeaderLen = tl.LongLen + tl.WordLen + tl.WordLen
+	if count < 0 || count > d.Len()/messageHeaderLen {
+		return fmt.Errorf("container announces %v messages, but only %v bytes left", count, d.Len())
+	}
 	arr := make([]*messages.Encrypted, count)
 	for i := 0; i < count; i++ {
 		msg := new(messages.Encrypted)
